@@ -134,6 +134,7 @@ type Net struct {
 	dials     map[[3]int]int // (task, op, peerIdx) -> count
 	dialOrd   map[int]int    // task -> dial ordinal
 	peerIdx   map[string]int
+	rawPeers  map[string]bool // peers whose traffic is not Diameter (FTP): every write is one opaque message
 	closed    bool
 }
 
@@ -152,7 +153,16 @@ func New(cfg Config) *Net {
 		dials:     map[[3]int]int{},
 		dialOrd:   map[int]int{},
 		peerIdx:   map[string]int{},
+		rawPeers:  map[string]bool{},
 	}
+}
+
+// RawPeer declares that the connections of this peer carry something other than
+// Diameter: each write is recorded and scheduled as one opaque message (Cmd 0).
+func (n *Net) RawPeer(name string) {
+	n.mu.Lock()
+	n.rawPeers[name] = true
+	n.mu.Unlock()
 }
 
 // NamePeer binds an address to a logical peer name used by fault rules.
@@ -274,6 +284,8 @@ type pair struct {
 	id        int
 	ord       int
 	peer      string
+	addr      string // dialled address
+	raw       bool
 	task, op  int
 	key       uint64
 	c, s      *end // client end, server end
@@ -357,7 +369,7 @@ func (n *Net) Dial(network, address string) (net.Conn, error) {
 	}
 	lat := n.latency(key, 0)
 	if dialFault != nil || l == nil {
-		p := &pair{id: len(n.pairs), ord: ord, peer: peer, task: task, op: op, key: key, openedAt: rt.Now()}
+		p := &pair{id: len(n.pairs), ord: ord, peer: peer, addr: address, task: task, op: op, key: key, openedAt: rt.Now()}
 		if dialFault != nil {
 			p.dialFault = dialFault.Kind
 		}
@@ -369,7 +381,7 @@ func (n *Net) Dial(network, address string) (net.Conn, error) {
 		time.Sleep(time.Duration(lat + extra))
 		return nil, fmt.Errorf("dial tcp %s: connect: connection refused", address)
 	}
-	p := &pair{id: len(n.pairs), ord: ord, peer: peer, task: task, op: op, key: key, openedAt: rt.Now()}
+	p := &pair{id: len(n.pairs), ord: ord, peer: peer, addr: address, raw: n.rawPeers[peer], task: task, op: op, key: key, openedAt: rt.Now()}
 	p.c = &end{p: p, isClient: true, notify: make(chan struct{}, 1)}
 	p.s = &end{p: p, isClient: false, notify: make(chan struct{}, 1)}
 	p.c.other, p.s.other = p.s, p.c
@@ -503,6 +515,15 @@ func (e *end) Write(b []byte) (int, error) {
 	if e.rerr != nil {
 		return 0, errors.New("write: broken pipe (simulated)")
 	}
+	if e.p.raw {
+		if len(b) == 0 {
+			return 0, nil
+		}
+		raw := append([]byte(nil), b...)
+		m := e.recordRaw(raw)
+		e.emit(&chunk{data: raw, msg: m}, m)
+		return len(b), nil
+	}
 	e.wpartial = append(e.wpartial, b...)
 	for len(e.wpartial) >= 20 {
 		ml := int(e.wpartial[1])<<16 | int(e.wpartial[2])<<8 | int(e.wpartial[3])
@@ -537,6 +558,20 @@ func (e *end) record(raw []byte) *Msg {
 		SentAt:   rt.Now(), DeliverAt: -1, Raw: raw,
 	}
 	m.F = ParseFields(raw[20:])
+	n.mu.Lock()
+	m.Ord = len(n.msgs)
+	n.msgs = append(n.msgs, m)
+	n.mu.Unlock()
+	return m
+}
+
+// recordRaw logs one write of a non-Diameter connection.
+func (e *end) recordRaw(raw []byte) *Msg {
+	n := e.p.net()
+	m := &Msg{
+		Conn: e.p.id, ConnOrd: e.p.ord, Peer: e.p.peer, Task: e.p.task, Op: e.p.op,
+		ToClient: !e.isClient, SentAt: rt.Now(), DeliverAt: -1, Raw: raw,
+	}
 	n.mu.Lock()
 	m.Ord = len(n.msgs)
 	n.msgs = append(n.msgs, m)
@@ -693,18 +728,29 @@ func (n *Net) isClosed() bool {
 	return n.closed
 }
 
+func (p *pair) clientAddr() net.Addr {
+	return &net.TCPAddr{IP: net.IPv4(10, 0, 0, 1), Port: 40000 + p.id%20000}
+}
+
+func (p *pair) serverAddr() net.Addr {
+	if a, err := net.ResolveTCPAddr("tcp", p.addr); err == nil && a.IP != nil {
+		return a
+	}
+	return &net.TCPAddr{IP: net.IPv4(10, 0, 0, 2), Port: 3868}
+}
+
 func (e *end) LocalAddr() net.Addr {
 	if e.isClient {
-		return addr{fmt.Sprintf("10.0.0.1:%d", 40000+e.p.id)}
+		return e.p.clientAddr()
 	}
-	return addr{"10.0.0.2:3868"}
+	return e.p.serverAddr()
 }
 
 func (e *end) RemoteAddr() net.Addr {
 	if e.isClient {
-		return addr{"10.0.0.2:3868"}
+		return e.p.serverAddr()
 	}
-	return addr{fmt.Sprintf("10.0.0.1:%d", 40000+e.p.id)}
+	return e.p.clientAddr()
 }
 
 func (e *end) SetDeadline(t time.Time) error      { return nil }
